@@ -13,8 +13,9 @@ import GdcVerif.Lemmas.Rle
   no extra hypothesis), except
     * JPEG-LS near-lossless: NEAR ≤ MAXVAL/2 is still not enforced (known finding, kept as
       `_counterexample` + `_partial`);
-    * JPEG 2000: the 32-bit bound of the SIZ size fields is not enforced (`_partial`; the witness
-      needs a ≥ 4 GiB buffer and is not replayable).
+    * JPEG 2000: full since d320418 (32-bit SIZ fields) and the guards added after the hunters' round
+      (tile extent ≤ 2^32−1, at most 65535 tiles, source byte count within a Go `int`); the only extra
+      hypothesis is the `uint8` type invariant of ProgressionOrder.
   The witnesses of the repaired defects are kept as `example`s (regression anchors): the
   regenerated function now rejects them.
 -/
@@ -223,14 +224,43 @@ example :
     ValidateJ2k.Encoder.Encode_accepts (j2kEnc { j2kDefault16 with Width := 4294967296, Height := 1 }) 4294967296 = false ∧
     ¬ J2kRepresentable { j2kDefault16 with Width := 4294967296, Height := 1 } 4294967296 := by decide
 
+/-- regression anchors (hunters' findings, repaired in `validateParams`):
+    `j2k-tile-count-over-65535` — 256×257 with 1×1 tiles (65792 tiles; Isot is 16 bit) and 256×256 (65536) are
+    rejected, 255×257 (65535 tiles) is accepted;
+    `j2k-tile-size-over-32bit` — a tile extent of 2^32 (XTsiz/YTsiz are 32 bit) is rejected, 2^32 − 1 accepted -/
+example :
+    ValidateJ2k.Encoder.Encode_accepts (j2kEnc { j2kDefault16 with Width := 256, Height := 257, TileWidth := 1, TileHeight := 1 }) 65792 = false ∧
+    ¬ J2kRepresentable { j2kDefault16 with Width := 256, Height := 257, TileWidth := 1, TileHeight := 1 } 65792 ∧
+    ValidateJ2k.Encoder.Encode_accepts (j2kEnc { j2kDefault16 with Width := 256, Height := 256, TileWidth := 1, TileHeight := 1 }) 65536 = false ∧
+    ValidateJ2k.Encoder.Encode_accepts (j2kEnc { j2kDefault16 with Width := 255, Height := 257, TileWidth := 1, TileHeight := 1 }) 65535 = true ∧
+    J2kRepresentable { j2kDefault16 with Width := 255, Height := 257, TileWidth := 1, TileHeight := 1 } 65535 ∧
+    ValidateJ2k.Encoder.Encode_accepts (j2kEnc { j2kDefault16 with TileWidth := 4294967296, TileHeight := 4294967296 }) 256 = false ∧
+    ¬ J2kRepresentable { j2kDefault16 with TileWidth := 4294967296, TileHeight := 4294967296 } 256 ∧
+    ValidateJ2k.Encoder.Encode_accepts (j2kEnc { j2kDefault16 with TileWidth := 4294967295, TileHeight := 0 }) 256 = true := by decide
+
+/-- regression anchor (`j2k-extent-product-overflow`): width × height × components × bytes beyond a Go `int`
+    is rejected whatever the buffer length (was: the product wrapped, the length check passed, `make` panicked);
+    the largest square that fits is accepted when the buffer holds it -/
+example :
+    ValidateJ2k.Encoder.Encode_accepts (j2kEnc { j2kDefault16 with Width := 4294967295, Height := 4294967295 }) 0 = false ∧
+    ValidateJ2k.Encoder.Encode_accepts (j2kEnc { j2kDefault16 with Width := 2147483648, Height := 1073741824, Components := 4, BitDepth := 16 }) 0 = false ∧
+    ValidateJ2k.Encoder.Encode_accepts (j2kEnc { j2kDefault16 with Width := 3037000500, Height := 3037000500 }) 9223372037000250000 = false ∧
+    ¬ J2kRepresentable { j2kDefault16 with Width := 3037000500, Height := 3037000500 } 9223372037000250000 ∧
+    ValidateJ2k.Encoder.Encode_accepts (j2kEnc { j2kDefault16 with Width := 3037000499, Height := 3037000499 }) 9223372030926249001 = true := by decide
+
 /-- Everything the format predicate asks for is proved from the generated guard chain
     (`validateParams` ; `convertPixelData` as composed by `Encoder.Encode`): positive dimensions
-    within the 32-bit SIZ fields, 1..4 components, depth 1..16, levels 0..6, code-block sides ∈
-    {4,…,1024} powers of two (via the generated `isPowerOfTwo`) with area ≤ 4096, tile sizes ≥ 0,
+    within the 32-bit SIZ fields, 1..4 components, depth 1..16, a source byte count
+    width·height·components·bytes that fits a Go `int` (so the `Int` reading of the two products in
+    `convertPixelData` is the Go value), levels 0..6, code-block sides ∈ {4,…,1024} powers of two
+    (via the generated `isPowerOfTwo`) with area ≤ 4096, tile sizes within 0..2^32−1 and at most
+    65535 tiles (`tilesAlong`, the ⌈·⌉ of T.800 B.3, from the generated `(W + t − 1) / t`),
     precinct sizes 0 or a power of two ≤ 2^15, 1..65535 layers, progression order ≤ 4, lossy
     quality 1..100, buffer length.
     `hu8` is not a guard but the type invariant of the Go field (`ProgressionOrder uint8`), which
-    go2lean's `Int` reading of the structure drops. -/
+    go2lean's `Int` reading of the structure drops.
+    Outside the translated prefix (float/slice-valued arguments, checked after it in `validateParams`):
+    ROI / ROIConfig, CustomQuantSteps length, MCT matrix and binding shapes — harness only. -/
 theorem j2k_accepts_representable (e : ValidateJ2k.Encoder) (len : Int)
     (hacc : ValidateJ2k.Encoder.Encode_accepts e len = true)
     (hu8 : 0 ≤ e.params.ProgressionOrder) :
@@ -238,8 +268,12 @@ theorem j2k_accepts_representable (e : ValidateJ2k.Encoder) (len : Int)
   unfold ValidateJ2k.Encoder.Encode_accepts ValidateJ2k.Encoder.validateParams_accepts
     ValidateJ2k.Encoder.convertPixelData_accepts at hacc
   simp at hacc
-  obtain ⟨⟨h1, h2, h3, h4, h5, h6, h7, h8, h9, h10, h11, h12⟩, h13⟩ := hacc
-  rw [tdiv8 _ (by omega)] at h13
+  obtain ⟨⟨h1, h2, h3, hext, h4, h5, h6, h7, h8, h9, htiles, h10, h11, h12⟩, h13⟩ := hacc
+  rw [tdiv8 _ (by omega)] at h13 hext
+  rw [tdiv_tiles _ _ (by omega) (by omega), tdiv_tiles _ _ (by omega) (by omega)] at htiles
+  have hbps : 0 < bytesPerSample e.params.BitDepth := by unfold bytesPerSample; omega
+  have hfit := mul_le_of_le_tdiv_tdiv _ _ _ _ (by decide) (Int.mul_pos (by omega) hbps) (by omega) hext
+  rw [← Int.mul_assoc] at hfit
   have hcw := isPowerOfTwo_range e.params.CodeBlockWidth (by omega) (by omega) h5.2
   have hch := isPowerOfTwo_range e.params.CodeBlockHeight (by omega) (by omega) h6.2
   have hpw : e.params.PrecinctWidth = 0 ∨ e.params.PrecinctWidth ∈ pow2s 0 15 := by
@@ -251,12 +285,17 @@ theorem j2k_accepts_representable (e : ValidateJ2k.Encoder) (len : Int)
     · exact Or.inl hz
     · exact Or.inr (isPowerOfTwo_precinct _ hz.2 hz.1)
   unfold J2kRepresentable
-  refine ⟨⟨by omega, by omega⟩, ⟨by omega, by omega⟩, by omega, by omega, by omega, hcw, hch, by omega, by omega, hpw, hph,
-    by omega, ⟨hu8, by omega⟩, ?_, by omega⟩
+  refine ⟨⟨by omega, by omega⟩, ⟨by omega, by omega⟩, by omega, by omega, by omega, hcw, hch, by omega,
+    ⟨by omega, by omega⟩, ⟨by omega, by omega⟩, htiles.2, hpw, hph,
+    by omega, ⟨hu8, by omega⟩, ?_, hfit, by omega⟩
   intro hl
   rcases h12 with hq | hq
   · rw [hl] at hq; cases hq
   · exact hq
+
+/-- a multi-tile instance of the hypotheses: 33×17 in 8×8 tiles (5 × 3 tiles) -/
+example : ValidateJ2k.Encoder.Encode_accepts (j2kEnc { j2kDefault16 with Width := 33, Height := 17, TileWidth := 8, TileHeight := 8 }) 561 = true ∧
+    tilesAlong 33 8 * tilesAlong 17 8 = 15 := by decide
 
 /-! ## RLE — rle/rle.go `Codec.encodeFrame` (hand model `Rle.encodeFrame`, tied by the C01/C17
     `rle-enc` correspondence lines; the model carries the guard added by 1dbcb53) -/
